@@ -25,6 +25,7 @@ type c01 struct {
 	rt  *rapid.T // nil in the deterministic sweep
 	g   *Gen
 	cmp int // comparisons made in this evaluation
+	pfx string // key prefix of a check family ("" = fresh-receiver decode)
 }
 
 func (c *c01) eraKey() string {
@@ -41,6 +42,13 @@ func (c *c01) eraKey() string {
 // known finding (then the caller goes on with the remaining comparisons).
 func (c *c01) fail(obj, what string, got, want []byte, extra string) bool {
 	key := fmt.Sprintf("C01:%s:%s", c.eraKey(), obj)
+	if c.pfx != "" && !c.rec.IsKnown(key) {
+		// a family prefix names the history shape (receiver reuse); a class that is
+		// already a listed finding of the plain decode keeps its key - it is the
+		// same defect seen again, not a new one
+		obj = c.pfx + obj
+		key = fmt.Sprintf("C01:%s:%s", c.eraKey(), obj)
+	}
 	msg := fmt.Sprintf("%s [%s]: %s; got %s want %s %s", obj, c.g.Desc(), what, evi.Hex(got), evi.Hex(want), extra)
 	cs := c.g.Sample()
 	cs["block_hex"] = hex.EncodeToString(c.g.Bytes)
@@ -298,34 +306,13 @@ func (c *c01) checkStandalone(i int, outer xcbor.Form) {
 	txType := TxTypeOf(g.Type)
 	// --- whole transaction
 	txb := StandaloneTx(g, i, outer)
-	tn, err := xcbor.ParseExact(txb)
-	if err != nil {
-		panic(err)
-	}
 	tx, err := ledger.NewTransactionFromCbor(txType, txb)
 	if err != nil {
 		c.rec.Class("standalone_tx_rejected")
 	} else {
 		c.rec.Class("standalone_tx_accepted")
 		c.rec.Class("standalone_tx_outer_" + outer.String())
-		sg := &Gen{Template: g.Template, Type: g.Type, Ops: append(append([]string{}, g.Ops...), fmt.Sprintf("standalone-tx#%d outer=%s", i, outer)),
-			Edits: g.Edits, Focus: g.Focus, Bytes: txb}
-		// a one-transaction view over the standalone bytes
-		sc := &c01{rec: c.rec, rt: c.rt, g: sg}
-		buf := func(n *xcbor.Node) []byte { return txb[n.Start:n.End] }
-		bodyN, witN := tn.Items[0], tn.Items[1]
-		var auxN *xcbor.Node
-		last := tn.Items[len(tn.Items)-1]
-		if len(tn.Items) > 2 && !(last.Kind == xcbor.Simple && last.Arg == 22) {
-			auxN = last
-		}
-		var auxR []byte
-		if auxN != nil {
-			auxR = buf(auxN)
-		}
-		sg.V = View{Type: g.Type, Root: tn} // only used for Layout()
-		sc.txAgainst("standalone-tx", tx, sg.V, buf(bodyN), buf(witN), auxR, auxN, v.Valid(i), txb, v.outputsOfBody(bodyN), bodyN, buf)
-		c.cmp += sc.cmp
+		c.txObjAgainstBytes("standalone-tx", fmt.Sprintf("standalone-tx#%d outer=%s", i, outer), tx, txb, v.Valid(i))
 	}
 	// --- body
 	if g.Type >= fixtures.TypeShelley {
@@ -351,6 +338,33 @@ func (c *c01) checkStandalone(i int, outer xcbor.Form) {
 		c.rec.Class("standalone_output_accepted")
 		c.eq("standalone-output.Cbor", out.Cbor(), ob)
 	}
+}
+
+// txObjAgainstBytes compares a decoded standalone transaction object with the
+// ranges of the standalone encoding txb it was decoded from.
+func (c *c01) txObjAgainstBytes(where, op string, tx common.Transaction, txb []byte, valid bool) {
+	g := c.g
+	tn, err := xcbor.ParseExact(txb)
+	if err != nil {
+		panic(err)
+	}
+	sg := &Gen{Template: g.Template, Type: g.Type, Ops: append(append([]string{}, g.Ops...), op),
+		Edits: g.Edits, Focus: g.Focus, Bytes: txb}
+	sc := &c01{rec: c.rec, rt: c.rt, g: sg, pfx: c.pfx}
+	buf := func(n *xcbor.Node) []byte { return txb[n.Start:n.End] }
+	bodyN, witN := tn.Items[0], tn.Items[1]
+	var auxN *xcbor.Node
+	last := tn.Items[len(tn.Items)-1]
+	if len(tn.Items) > 2 && !(last.Kind == xcbor.Simple && last.Arg == 22) {
+		auxN = last
+	}
+	var auxR []byte
+	if auxN != nil {
+		auxR = buf(auxN)
+	}
+	sg.V = View{Type: g.Type, Root: tn} // only used for Layout()
+	sc.txAgainst(where, tx, sg.V, buf(bodyN), buf(witN), auxR, auxN, valid, txb, sg.V.outputsOfBody(bodyN), bodyN, buf)
+	c.cmp += sc.cmp
 }
 
 // outputsOfBody is Outputs for a body node that is not part of the view's tree.
@@ -398,7 +412,7 @@ func decodeGen(rec *evi.Recorder, g *Gen) (ledger.Block, error) {
 
 func TestC01(t *testing.T) {
 	rec := evi.New(t, "C01", evi.Exploration,
-		"generated block = real fixture block of every era (Byron EBB/main, Shelley..Dijkstra), transaction list rebuilt through xcbor (select/duplicate/permute/transplant from same-or-earlier-era fixtures, fee replaced, invalid marks, counts biased to 0/1/23..26), restyled by a rapid-drawn plan of up to 6 different admissible CBOR head forms (minimal/1/2/4/8-byte/indefinite, chunked strings) focused on skeleton|header|tx-bodies|tx-witnesses|aux|outputs|ints|anywhere, header body-hash commitment recomputed with the harness's blake2b-256 (Shelley+; Byron decoded with SkipBodyHashValidation); plus a deterministic sweep of every single head-form change at depth<=2 of every fixture; plus standalone transaction/body/output/header items cut from the generated block. Oracle: every stored-bytes accessor == xcbor byte range, every id == harness blake2b-256 of that range, cbor.Encode(decoded)==range. non-trivial = era decoder accepted the block AND at least one head form differs from the fixture's; distinct by (template, template ops, focus, style edits)")
+		"generated block = real fixture block of every era (Byron EBB/main, Shelley..Dijkstra), transaction list rebuilt through xcbor (select/duplicate/permute/transplant from same-or-earlier-era fixtures, fee replaced, invalid marks, counts biased to 0/1/23..26), restyled by a rapid-drawn plan of up to 6 different admissible CBOR head forms (minimal/1/2/4/8-byte/indefinite, chunked strings) focused on skeleton|header|tx-bodies|tx-witnesses|aux|outputs|ints|anywhere, header body-hash commitment recomputed with the harness's blake2b-256 (Shelley+; Byron decoded with SkipBodyHashValidation); plus a deterministic sweep of every single head-form change at depth<=2 of every fixture; plus standalone transaction/body/output/header items cut from the generated block; plus (one case in three) a receiver-reuse sequence: decode A into a block/transaction/header/body receiver of the era, keep its transactions, header, outputs and a value copy (identifiers observed before the second decode in half of the cases), decode a different same-era B (not longer than A in ~80%) into the SAME receiver, then the kept objects must still report A and the receiver exactly B. Oracle: every stored-bytes accessor == xcbor byte range, every id == harness blake2b-256 of that range, cbor.Encode(decoded)==range. non-trivial = era decoder accepted the block AND at least one head form differs from the fixture's; distinct by (template, template ops, focus, style edits)")
 	defer rec.Finish()
 	rec.Assume(
 		"xcbor (independent RFC 8949 parser/encoder in the harness) defines 'the byte range an item was decoded from'",
@@ -541,6 +555,10 @@ func TestC01(t *testing.T) {
 		rec.ClassN("comparisons", c.cmp)
 		if len(g.Edits) > 0 {
 			rec.NonTrivial(g.Desc(), g.Sample())
+		}
+		// receiver-reuse family (one case in three): see c01_reuse_test.go
+		if rapid.IntRange(0, 2).Draw(rt, "reuse") == 0 {
+			checkReuse(rec, rt, g, collect)
 		}
 	})
 }
